@@ -56,6 +56,11 @@ def _native_jvp(name):
     g = float(jax.grad(f)(jp.asarray(x)))
     if not np.isfinite(g):
       bad.append((x, g))
+  with jax.enable_x64(False):          # brax's default precision: a guard margin below float32 resolution is no guard at all
+    for x in (1.0, -1.0):
+      g = float(jax.grad(f)(jp.asarray(x, dtype=jp.float32)))
+      if not np.isfinite(g):
+        bad.append(('float32', x, g))
   for x in (0.3, -0.7):
     g = float(jax.grad(f)(jp.asarray(x)))
     want = (-1 if name == 'safe_arccos' else 1) / np.sqrt(1 - x * x)
@@ -212,10 +217,41 @@ def bounded(tier):
               if err > 2e-4:
                 return Result(REFUTED, '%s: d loss / d %s[%d] = %g by autodiff, %g by central differences (types %s, %d steps)' % (pipeline, ('q', 'qd', 'ctrl')[ai], j, an, fd, sys.link_types, steps),
                               witness={'xml': xml, 'q': list(map(float, qq)), 'qd': list(map(float, qqd))}, replay={'reproduced': True, 'autodiff': an, 'finite_difference': fd})
-    return Result(PROVED, 'bounded: %d gradient evaluations finite; worst relative deviation from central differences %.1e' % (evals, worst),
+    f32 = _float32_singular()
+    if f32.get('reproduced'):
+      return Result(REFUTED, 'float32 (brax default precision): gradient not finite at a singular input: %s' % f32['what'], replay=f32)
+    evals += f32['evaluations']
+    return Result(PROVED, 'bounded: %d gradient evaluations finite (incl. float32 at zero joint angles of a universal joint); worst relative deviation from central differences %.1e' % (evals, worst),
                   stats={'evaluations': evals, 'distinct_nontrivial': len(distinct)})
   return Obligation('C03/bounded/grad_vs_finite_differences', 'brax.{generalized,spring,positional}.pipeline:init,step', 'BOUNDED: jax.grad of a weighted sum of x.pos, xd.vel, q, qd after init + 1-3 steps w.r.t. '
                     '(q, qd, ctrl): finite at random inputs and at rest (qd = 0, q = init); equal to central differences (rel 2e-4) at random inputs', run, backend='bounded', kind='bounded', budget=2400)
+
+
+UNIVERSAL = '''<mujoco><compiler angle="radian"/><option timestep="0.002"/><worldbody><body name="a" pos="0 0 1"><joint name="j0" type="hinge" axis="1 0 0"/><joint name="j1" type="hinge" axis="0 1 0"/>
+<geom type="capsule" size="0.04 0.2" pos="0 0 -0.2" contype="0" conaffinity="0"/></body></worldbody></mujoco>'''
+
+
+def _float32_singular():
+  """default 32-bit mode: gradient of sum(q)+sum(qd) after a few steps of a universal joint at zero / rest angles, spring and positional pipelines"""
+  import importlib
+  from brax.io import mjcf
+  n = 0
+  with jax.enable_x64(False):
+    sys = mjcf.loads(UNIVERSAL)
+    for pipeline in ('spring', 'positional', 'generalized'):
+      pl = importlib.import_module('brax.%s.pipeline' % pipeline)
+      for q0 in ([0.3, 0.0], [0.0, 0.0]):
+        def loss(q, qd):
+          st = pl.init(sys, q, qd)
+          for _ in range(2):
+            st = pl.step(sys, st, jp.zeros(0, dtype=jp.float32))
+          return jp.sum(st.q) + jp.sum(st.qd)
+        g = jax.grad(loss, argnums=(0, 1))(jp.asarray(q0, dtype=jp.float32), jp.zeros(2, dtype=jp.float32))
+        n += 1
+        flat = np.concatenate([np.asarray(a).reshape(-1) for a in g])
+        if not np.isfinite(flat).all():
+          return {'reproduced': True, 'what': '%s pipeline, q0 = %s: dL/d(q,qd) = %s' % (pipeline, q0, flat.tolist()), 'model': 'universal joint (two stacked hinges)'}
+  return {'reproduced': False, 'evaluations': n}
 
 
 def obligations(tier):
